@@ -308,6 +308,26 @@ def run(tier="quick", seed=0, pid=None):
                 finally:
                     for k, v in saved_mod.items():
                         getattr(m, k).__module__ = v
+    # a module-qualified descriptor is resolved through its module even when the local class table holds an unrelated
+    # class under the same short name
+    n += 1
+
+    class Impostor(object):
+        pass
+    cfgx = C.Config()
+    cfgx.classes.add(Impostor, "DictBean")
+    cfgx.classes.add(Impostor, "Decimal")
+    for v in (m.DictBean(), decimal.Decimal("2.5"), [m.DictBean()]):
+        try:
+            back = JC.load(JC.dump(v, config=cfgx), cfgx.classes)
+            got_t = type(back[0] if isinstance(back, list) else back)
+            want_t = type(v[0] if isinstance(v, list) else v)
+            if got_t is not want_t:
+                fail("C07", "bean_roundtrip", {"value": label(v), "local_class_table": "unrelated class under the same short name"},
+                     "rebuilt as %s" % got_t.__name__)
+        except Exception as e:     # noqa
+            fail("C07", "bean_roundtrip", {"value": label(v), "local_class_table": "unrelated class under the same short name"},
+                 "%s: %s" % (type(e).__name__, e))
     for v in (decimal.Decimal("1.50"), m.Color.RED, [decimal.Decimal("-0.1"), {"c": m.Color.BLUE}]):
         n += 1
         try:
